@@ -227,7 +227,11 @@ func Dims(md protoreflect.MessageDescriptor, o ValueOpts) []Dim {
 		if o.PathSafe[string(fd.Name())] && !fd.IsList() && !fd.IsMap() && fd.Kind() != protoreflect.MessageKind {
 			// URL-bound (path variable / required query parameter): the field always carries a non-empty value
 			d.Alts = nil
-			for _, v := range scalarValues(fd, o.Thorough) {
+			vals := scalarValues(fd, o.Thorough)
+			if fd.Kind() == protoreflect.StringKind {
+				vals = append(vals, urlPunctuationStrings()...)
+			}
+			for _, v := range vals {
 				v := v
 				d.Alts = append(d.Alts, Alt{Label: label(fd, v), Set: func(m protoreflect.Message) { m.Set(fd, v) }})
 			}
@@ -245,6 +249,21 @@ func Dims(md protoreflect.MessageDescriptor, o ValueOpts) []Dim {
 		dims = append(dims, d)
 	}
 	return dims
+}
+
+// urlPunctuationStrings is the punctuation family for URL-bound strings: every printable ASCII punctuation character alone
+// between two letters, doubled, and followed by each of the characters that give it a meaning somewhere on the way (percent
+// escapes, JavaScript replacement patterns $$ $& $' $`, dot segments are excluded: they are a separate class).
+func urlPunctuationStrings() []protoreflect.Value {
+	var out []protoreflect.Value
+	punct := "!\"#$%&'()*+,-/:;<=>?@[\\]^_`{|}~ "
+	for _, c := range punct {
+		out = append(out, protoreflect.ValueOfString("a"+string(c)+"b"), protoreflect.ValueOfString("a"+string(c)+string(c)+"b"))
+	}
+	for _, s := range []string{"a$&b", "a$'b", "a$`b", "a$1b", "a%2b", "a%zzb", "a%25b", "a+%20b", "$&", "%41"} {
+		out = append(out, protoreflect.ValueOfString(s))
+	}
+	return out
 }
 
 func singularAlts(fd protoreflect.FieldDescriptor, o ValueOpts, withZero bool) []Alt {
